@@ -1,8 +1,9 @@
 (* Extraction of the executable model for the correspondence check.
    ExtrOcamlBasic only: nat, positive, N stay Coq's own inductive types. *)
 From Coq Require Import ExtrOcamlBasic.
-From Memchr Require Import Params Base.Res Base.ListX Sub.IsEqual Sub.Pair.
+From Memchr Require Import Params Base.Res Base.ListX Sub.IsEqual Sub.Pair Mem.Wrappers.
 
 Extraction "extracted.ml"
   is_equal is_prefix is_suffix is_equal_raw
-  pair_with_ranker pair_with_indices default_rank.
+  pair_with_ranker pair_with_indices default_rank
+  backend_find backend_rfind backend_count x86_choice.
